@@ -260,6 +260,13 @@ func (env *SpecEnv) ident(name string) (*Val, error) {
 		return &Val{T: "0", S: SInt, IsNil: true}, nil
 	}
 	if v, ok := env.vars[name]; ok {
+		// a parameter that the body assigns to is spilled to a local cell by go/ssa: outside old()
+		// its name denotes the CURRENT content of that cell, not the value passed in
+		if env.fr != nil && env.fr.params != nil && env.fr.params[name] == v && env.cur != env.old && env.cur != env.fr.entry && env.li == nil {
+			if cv := env.fr.spilledParam(name, env.cur); cv != nil {
+				return cv, nil
+			}
+		}
 		return v, nil
 	}
 	if name == "result" && len(env.results) == 1 {
